@@ -146,6 +146,22 @@ add("C01", True, "exploration",
     "routing). Machines up to 8x8 (quick) / 16x16 (thorough).",
     "DESIGN.md section 5, C01")
 
+add("C08", True, "exploration",
+    "model-based stateful testing: Hypothesis-generated histories of field "
+    "definitions / values / layouts interpreted against a hierarchy model",
+    "Histories of add_field (automatic and explicit lengths/positions, tags, "
+    "names re-used in sibling scopes), value assignments and assign_fields "
+    "calls run on the real BitField and on a model; after every successful "
+    "layout all enumerated complete assignments are checked for disjoint "
+    "in-range fields, sufficient width, read-back, mask and tag closure and "
+    "pairwise non-matching key/masks; definitions that must be rejected are; "
+    "completeness is asserted with the bit field sized exactly to the needed "
+    "width (single-selector hierarchies).",
+    "Trusted: the hierarchy model in vf/props/c08.py. Known finding K1 "
+    "(multi-selector fragmentation) is listed in known_findings.json and its "
+    "sub-domain excluded from the completeness clause only.",
+    "DESIGN.md section 5, C08")
+
 
 def main():
     checks = []
